@@ -227,7 +227,8 @@ def check_line(L, text):
     if kind in ("info", "scoreprop"):
         val = getattr(L, "Value", None)
         val = getattr(val, "value", val) if hasattr(val, "is_list") else val
-        if isinstance(val, str) and val.strip() == "":
+        if isinstance(val, str) and val.strip() == "" and not (kind == "info" and version < (1, 0, 0) and ",''" in text):
+            # (the quoted form of the versions before 1.0.0 does denote an empty value: that one is judged)
             ctx.extra["empty_text_value_not_denotable"] += 1    # e.g. an upgraded 'info(subtitle,[])'
             return
     ctx.hook("matchline")
